@@ -345,3 +345,21 @@ Theorem fresh_output_is_wf :
   (forall i, In i (flat out) -> ~ In i (flat x1) /\ ~ In i (flat x2)) ->
   wf (quads sp x1 x2 out).
 Proof. exact wf_fresh_elem. Qed.
+
+(* x + y on an ARBITRARILY NESTED product space (floating leaves), fresh result element t whose
+   leaves hold arbitrary values: every leaf of the result is the entry-wise sum of the
+   corresponding leaves of x and y (x and y may be the same element or share components);
+   nothing but the leaves of t changes -- in particular x and y. *)
+Theorem nested_add :
+  forall (T : Type) (N : Num T) (F : NumField T)
+         (flg : nat -> bool * bool) (bdtf : nat -> bool) (icast : T -> T)
+         (sp : space) (x y t : elem) (s : store T),
+  conf sp x -> conf sp y -> conf sp t ->
+  NoDup (flat t) -> (forall i, In i (flat t) -> ~ In i (flat x) /\ ~ In i (flat y)) ->
+  lens_ok s (quads sp x y t) ->
+  exists s', w_add flg bdtf icast sp x y t s = Ok s'
+    /\ (forall q, In q (quads sp x y t) -> q_fl q = true ->
+          s' (q_out q) = vadd (s (q_x1 q)) (s (q_x2 q)))
+    /\ (forall j, ~ In j (flat t) -> s' j = s j).
+Proof. exact @nested_add_correct. Qed.
+Print Assumptions nested_add.
